@@ -54,6 +54,15 @@ type vNode struct {
 
 // vStartNode starts (bootstrap=true: creates) a single-node network on dir and waits for leadership.
 func vStartNode(dir string, bootstrap bool) (*vNode, error) {
+	return vStartNodeAs(dir, bootstrap, false)
+}
+
+// vStartFollower starts a node that is a member of a two-server configuration whose other server does
+// not exist: it never becomes leader and applies nothing by itself.  The harness feeds its FSM directly
+// (FSM.Apply), which is what replication does on a follower that lags behind.
+func vStartFollower(dir string) (*vNode, error) { return vStartNodeAs(dir, true, true) }
+
+func vStartNodeAs(dir string, bootstrap, follower bool) (*vNode, error) {
 	log.SetOutput(io.Discard)
 	// message ids = offset + raft index; main() sets the offset from a flag whose default is this value
 	robust.MessageOffset = 4648398125000000000
@@ -115,13 +124,20 @@ func vStartNode(dir string, bootstrap bool) (*vNode, error) {
 	}
 	node = r
 	if bootstrap {
-		if err := r.BootstrapCluster(raft.Configuration{Servers: []raft.Server{{ID: config.LocalID, Address: raft.ServerAddress(vPeerAddr)}}}).Error(); err != nil {
+		servers := []raft.Server{{ID: config.LocalID, Address: raft.ServerAddress(vPeerAddr)}}
+		if follower {
+			servers = append(servers, raft.Server{ID: "ghost.example:13001", Address: "ghost.example:13001"})
+		}
+		if err := r.BootstrapCluster(raft.Configuration{Servers: servers}).Error(); err != nil {
 			return nil, err
 		}
 	}
 	h := api.NewHTTP(ircServer, r, ircStore, outputStream, &rafthttp.HTTPTransport{}, *network, *networkPassword, dir, vPeerAddr, *useProtobuf, 3)
 	fsm.ReplaceState = h.ReplaceState
 	n := &vNode{dir: dir, raft: r, fsm: fsm, api: h, logStore: logStore, fss: fss, trans: trans}
+	if follower {
+		return n, nil
+	}
 	deadline := time.Now().Add(60 * time.Second)
 	for r.State() != raft.Leader {
 		if time.Now().After(deadline) {
